@@ -26,6 +26,11 @@ func (a *Activation) step(st *State, ins ssa.Instruction) {
 		loc := g.newObject(st, ins.Comment)
 		a.zeroInit(st, loc, elemT)
 		a.set(ins, Val{T: loc})
+		if !ins.Heap && len(g.localProt) < 600 {
+			// a local whose address does not escape (go/ssa's analysis): no callee can
+			// reach it, its cells keep their values across calls
+			g.localProt = append(g.localProt, a.leafLocs(loc, elemT)...)
+		}
 	case *ssa.Store:
 		addr := a.val(st, ins.Addr)
 		v := a.val(st, ins.Val)
